@@ -905,16 +905,16 @@ func (v Value) toReflectValue(typ reflect.Type) (reflect.Value, error) {
 			obj := v.object()
 			switch vl := obj.value.(type) {
 			case *goStructObject: // Struct
-				return reflect.ValueOf(vl.value.Interface()), nil
+				return assignableTo(reflect.ValueOf(vl.value.Interface()), typ)
 			case *goMapObject: // Map
-				return reflect.ValueOf(vl.value.Interface()), nil
+				return assignableTo(reflect.ValueOf(vl.value.Interface()), typ)
 			case *goArrayObject: // Array
-				return reflect.ValueOf(vl.value.Interface()), nil
+				return assignableTo(reflect.ValueOf(vl.value.Interface()), typ)
 			case *goSliceObject: // Slice
-				return reflect.ValueOf(vl.value.Interface()), nil
+				return assignableTo(reflect.ValueOf(vl.value.Interface()), typ)
 			}
 			exported := reflect.ValueOf(v.export())
-			if exported.Type().ConvertibleTo(typ) {
+			if exported.CanConvert(typ) { // not ConvertibleTo: a slice too short for an array type
 				return exported.Convert(typ), nil
 			}
 			return reflect.Value{}, fmt.Errorf("TypeError: could not convert %v to reflect.Type: %v", exported, typ)
@@ -927,13 +927,22 @@ func (v Value) toReflectValue(typ reflect.Type) (reflect.Value, error) {
 		case valueEmpty, valueResult, valueReference:
 			// These are invalid, and should panic
 		default:
-			return reflect.ValueOf(v.value), nil
+			return assignableTo(reflect.ValueOf(v.value), typ)
 		}
 	}
 
 	// A script reaches this by storing into a bridged slice, array or map whose elements are
 	// pointers, functions, channels or complex numbers: it gets a TypeError.
 	panic(newError(nil, "TypeError", 0, "invalid conversion of %v (%v) to reflect.Type: %v", v.kind, v, typ))
+}
+
+// assignableTo returns value if a Go variable of type typ can hold it, and a TypeError if
+// not: reflect.Value.Set and SetMapIndex panic on a value that is not assignable.
+func assignableTo(value reflect.Value, typ reflect.Type) (reflect.Value, error) {
+	if value.Type().AssignableTo(typ) {
+		return value, nil
+	}
+	return reflect.Value{}, fmt.Errorf("TypeError: could not convert %v to reflect.Type: %v", value.Type(), typ)
 }
 
 func stringToReflectValue(value string, kind reflect.Kind) (reflect.Value, error) {
